@@ -1032,3 +1032,42 @@ func specDecodedLen(buf []byte) uint64 { _, n, _ := specScan(buf); return n }
 //@   ensures strs: forall(0, len(pj.Strings.B), func(j int) bool { return result.Strings.B[j] == pj.Strings.B[j] })
 //@   ensures fresh: !sameSlice(result.Tape, pj.Tape) && !sameSlice(result.Message, pj.Message) && result.Strings != pj.Strings && result.internal == nil
 //@   safe
+
+// ---------------------------------------------------------------------------
+// Float printing (C18, C10). The Ryu core and fmtF are token-identical to strconv (frame/congr obligations);
+// here: the format choice of appendFloat is encoding/json's, non-finite values are refused, and appendFloatF
+// feeds the Ryu core the IEEE-754 decomposition genericFtoa computes.
+
+// IEEE-754 binary64 decomposition: value = specMant * 2^specExp2 (sign apart)
+func specMant(b uint64) uint64 {
+	return ite((b>>52)&0x7ff != 0, b&(1<<52-1)|1<<52, b&(1<<52-1))
+}
+func specExp2(b uint64) int {
+	return ite((b>>52)&0x7ff == 0, 1, int(b>>52)&0x7ff) - 1023 - 52
+}
+
+// encoding/json (floatEncoder): 'e' format iff abs != 0 && (abs < 1e-6 || abs >= 1e21)
+func jsonUsesE(abs float64) bool { return abs != 0 && (abs < 1e-6 || abs >= 1e21) }
+
+//@ func appendFloat
+//@   props C18 C10
+//@   ensures nonfinite: implies(math.IsNaN(f) || math.IsInf(f, 0), result1 != nil && len(result0) == 0 && result0 == nil)
+//@   ensures finite: implies(!math.IsNaN(f) && !math.IsInf(f, 0), result1 == nil)
+//@   assertafter "appendFloatF(dst, f)" fixed: !jsonUsesE(abs) && !math.IsNaN(f) && !math.IsInf(f, 0)
+//@   assertafter "strconv.AppendFloat(dst, f, 'e', -1, 64)" exponent: jsonUsesE(abs) && !math.IsNaN(f) && !math.IsInf(f, 0)
+//@   safe [C05]
+
+//@ func appendFloatF
+//@   props C18 C10
+//@   assertafter "ryuFtoaShortest(&digs, mant, exp-mantbits)" decomposition: mant == specMant(bits) && exp-mantbits == specExp2(bits) && bits == math.Float64bits(val)
+//@   assertafter "fmtF(dst, neg, digs, prec)" format: neg == (bits>>63 != 0) && prec == maxInt(digs.nd-digs.dp, 0)
+
+//@ func ryuFtoaShortest
+//@   props C18
+//@   trusted frame/congr: token-identical to strconv.ryuFtoaShortest specialised to float64
+//@   assigns *d
+//@   nonnil d
+
+//@ func fmtF
+//@   props C18
+//@   trusted frame/congr: token-identical to strconv.fmtF
